@@ -103,6 +103,94 @@ theorem idle_no_stale {ns nt : Nat} {s : State} (h : Reachable ns nt s)
   | null => rfl
   | own v => rfl
 
+/-! ## never_stale (no release-before-store window) -/
+
+/-- no thread is in the middle of an assignment that has released its old target but not yet stored the new pointer:
+    with the assignments of the fixed source (`old = ptr; ptr = in; old->refDec()` for handles AND raw pointers) no
+    operation contains such a window any more -/
+def NoWindow (s : State) : Prop := ∀ t m, m ∈ (getThr s t).cont → ∀ x, m ≠ .storeTop x
+
+theorem compile_noWindow (op : Op) (m : MStep) (h : m ∈ compile op) (x : Nat) : m ≠ .storeTop x := by
+  cases op <;> simp [compile] at h <;> (try (rcases h with h | h | h <;> subst h <;> simp)) <;> (try (subst h; simp))
+  case ctorRaw y k => cases k <;> simp at h <;> subst h <;> simp
+  case copy y z => rcases h with h | h <;> subst h <;> simp
+  case raw y k => rcases h with h | h <;> subst h <;> simp
+
+theorem reachable_noWindow {ns nt : Nat} {s : State} (h : Reachable ns nt s) : NoWindow s := by
+  induction h with
+  | init =>
+    intro t m hm
+    simp only [getThr, init, List.getElem?_replicate] at hm
+    split at hm <;> simp at hm
+  | @act s a _ he ih =>
+    cases a with
+    | start t op =>
+      intro t' m hm x
+      simp only [apply, start] at hm
+      simp only [enabled] at he
+      cases hth : s.thr[t]? with
+      | none => simp [hth] at he
+      | some th =>
+        have ht : t < s.thr.length := by
+          rcases Nat.lt_or_ge t s.thr.length with h1 | h1
+          · exact h1
+          · simp [List.getElem?_eq_none h1] at hth
+        rw [getThr_setThr _ t t' _ ht] at hm
+        by_cases htt : t = t'
+        · simp only [htt, if_true] at hm
+          exact compile_noWindow op m hm x
+        · simp only [htt, if_false] at hm
+          exact ih t' m hm x
+    | step t =>
+      intro t' m hm x
+      simp only [apply] at hm
+      simp only [enabled] at he
+      cases hns : nextStep s t with
+      | none => simp [hns] at he
+      | some ms =>
+        obtain ⟨th, rest, hth, hcont⟩ := nextStep_some hns
+        have ht : t < s.thr.length := by
+          rcases Nat.lt_or_ge t s.thr.length with h1 | h1
+          · exact h1
+          · simp [List.getElem?_eq_none h1] at hth
+        have hget : getThr s t = th := by simp [getThr, hth]
+        have hmicro : micro s t = exec (setThr s t { th with cont := rest }) t ms := by
+          simp [micro, hth, hcont]
+        rw [hmicro] at hm
+        generalize hs0 : setThr s t { th with cont := rest } = s0 at hm
+        have ht0 : t < s0.thr.length := by rw [← hs0]; simpa using ht
+        have hget0 : ∀ t'', getThr s0 t'' = if t = t'' then { th with cont := rest } else getThr s t'' := by
+          intro t''; rw [← hs0]; exact getThr_setThr _ t t'' _ ht
+        by_cases htt : t = t'
+        · subst htt
+          have hgrow := exec_contGrow s0 t ms ht0
+          have hc0 : (getThr s0 t).cont = rest := by simp [hget0]
+          rw [hc0] at hgrow
+          rcases hgrow with hk | ⟨v, hk⟩
+          · rw [hk] at hm
+            exact ih t m (by rw [hget, hcont]; exact List.mem_cons_of_mem _ hm) x
+          · rw [hk] at hm
+            simp only [List.mem_cons] at hm
+            rcases hm with hm | hm
+            · subst hm; simp
+            · exact ih t m (by rw [hget, hcont]; exact List.mem_cons_of_mem _ hm) x
+        · rw [exec_other s0 t t' ms htt, hget0 t'] at hm
+          simp only [htt, if_false] at hm
+          exact ih t' m hm x
+
+/-- never_stale: in EVERY reachable state — in particular at the moment a pointee's destructor runs, in the middle of
+    whatever operation released the last reference — every constructed handle variable is null or owns a count on a
+    live object; no handle still holds the pointer of an object it has already released. (This is what the harness'
+    `watchall` observes from inside the destructors; the source before /repo 5a911b9 violated it in `operator=(T*)`.) -/
+theorem never_stale {ns nt : Nat} {s : State} (h : Reachable ns nt s) (x : Nat) (hx : H) (hc : cell s x = some hx) :
+    hx.isStale = false := by
+  cases hx with
+  | stale v =>
+    obtain ⟨t, ht⟩ := (reachable_sinv h).stale x v hc
+    exact absurd rfl (reachable_noWindow h t _ ht x)
+  | null => rfl
+  | own v => rfl
+
 /-! ## destroy_once -/
 
 /-- destroy_once (never twice): the pointee destructor runs at most once per object. -/
